@@ -35,7 +35,11 @@ CONFIG = {
                   "forever). That CNAME/MX never succeed with more than one record is not a theorem (C10_reassembly does not need it).",
     "technique": "Lean 4 proof (induction over the wrapper loops, generic sort/tag lemma, round-trip lemmas) + kernel-checked witnesses + model/code differential correspondence",
     "components": [{"name": "dnsresp", "timeout": {"quick": 300, "thorough": 1500}}],
-    "rule": "dnsresp: (1) packet responses for every payload length 0..300 (quick: all of 0..64 and 230..300, every third "
+    "rule": "dnsresp (2c, many records): AAAA replies of 255, 256, 257, 300, 585 records (thorough: 2..4000) for every codec, payloads whose "
+            "stream is a whole number of 14-byte records and carries a response letter at the first byte of records 2, 256, 257, 512, 513 and the "
+            "last (so that a mis-sorted reassembly decodes instead of failing); A replies of 254-257 records for every codec; CNAME/MX/SRV "
+            "replies of 2 and 17 records. " + \
+            "dnsresp: (1) packet responses for every payload length 0..300 (quick: all of 0..64 and 230..300, every third "
             "between) x 8 record types x 7 downstream codecs x 1 (quick) / 3 (thorough) domains, 5 byte patterns incl. "
             "escaping stress bytes; (2) lengths 512/1024 (all types), 4096/8192 (NULL, TXT; thorough: all), around 65530 "
             "for NULL/PRIVATE; (3) all 7 response kinds x 14 BadErrors + custom/empty error texts x 8 types x 7 codecs, "
